@@ -337,6 +337,9 @@ func matches(e expect, r refrpc.Response, enters map[int][]sim.BEvent) bool {
 		}
 		ret := exitRet[es[0].Inv]
 		var tok sim.Token
+		if ret == "baderr" {
+			return r.IsError && r.Code == 7
+		}
 		if strings.HasPrefix(ret, "err:") {
 			var code int
 			fmt.Sscanf(ret[4:], "%d", &code)
@@ -470,7 +473,7 @@ func genScenario(t *rapid.T) sim.BScenario {
 		// sometimes release something in between
 		for len(pending) > 0 && rapid.IntRange(0, 2).Draw(t, "rel") == 0 {
 			j := rapid.IntRange(0, len(pending)-1).Draw(t, "which")
-			sc.Steps = append(sc.Steps, sim.BStep{Op: "release", K: pending[j], Out: rapid.SampledFrom([]string{"ok", "ok", "err:-32000"}).Draw(t, "out"), Burst: rapid.Bool().Draw(t, "rburst")})
+			sc.Steps = append(sc.Steps, sim.BStep{Op: "release", K: pending[j], Out: rapid.SampledFrom([]string{"ok", "ok", "err:-32000", "baderr"}).Draw(t, "out"), Burst: rapid.Bool().Draw(t, "rburst")})
 			pending = append(pending[:j:j], pending[j+1:]...)
 		}
 	}
